@@ -377,10 +377,47 @@ def gen_find_masks(bdir):
     return out
 
 
+def gen_compress_consts(bdir):
+    """the literals of compress_function_tables / find_func_entry: the marker byte, the counter value at which the loop
+    overflows, the counter value it continues with"""
+    site = "guard:compress-literals"
+
+    def lit(n):
+        n = _strip(n)
+        return int(n["value"]) if n.get("kind") == "IntegerLiteral" else None
+
+    markers, overflow, jafter = [], [], []
+    for rel, fname in (("lib/lpc/compiler.c", "compress_function_tables"), ("lib/lpc/program.c", "find_func_entry")):
+        fn = _ast_of_function(bdir, rel, fname)
+        for n in _walk(fn):
+            if n.get("kind") != "BinaryOperator" or n.get("opcode") not in ("=", "=="):
+                continue
+            l, r = _strip(n["inner"][0]), lit(n["inner"][1])
+            if r is None:
+                continue
+            lname = (l.get("referencedDecl") or {}).get("name")
+            if l.get("kind") == "ArraySubscriptExpr" or (n["opcode"] == "==" and l.get("kind") == "BinaryOperator" and l.get("opcode") == "="):
+                markers.append(r)
+            elif lname == "j" and n["opcode"] == "==":
+                overflow.append(r)
+            elif lname == "j" and n["opcode"] == "=" and r != 0:
+                jafter.append(r)
+    # find_func_entry writes `(fidx = prog->function_compressed->index[idx]) == 255`: the left side is an assignment
+    if len(markers) < 4 or len(set(markers)) != 1 or len(overflow) != 1 or len(jafter) != 1:
+        raise TieBroken(site, "marker / overflow literals of the compressed table changed shape: markers=%s overflow=%s j=%s"
+                        % (markers, overflow, jafter))
+    return ("/-- GENERATED from the clang AST of compress_function_tables / find_func_entry: the marker byte of an omitted entry -/\n"
+            "def cmpMarkerGen : Nat := %d\n"
+            "/-- GENERATED: `if (j == K)` — the counter value at which the byte index overflows -/\n"
+            "def cmpOverflowAtGen : Nat := %d\n"
+            "/-- GENERATED: `j = K` in the overflow branch -/\n"
+            "def cmpJAfterOverflowGen : Nat := %d\n" % (markers[0], overflow[0], jafter[0]))
+
+
 class C07(Prop):
     id = "C07"
     title = "calls reach the right function and respect visibility, whatever came before"
-    lean_modules = ["NV.C07.Props", "NV.C07.Witness", "NV.C07.OracleTests", "NV.C07.LemmasCompress", "NV.C07.Tie", "NV.C07.LemmasBinary"]
+    lean_modules = ["NV.C07.Props", "NV.C07.Witness", "NV.C07.OracleTests", "NV.C07.LemmasCompress", "NV.C07.Tie", "NV.C07.LemmasBinary", "NV.C07.LemmasBuild3", "NV.C07.LemmasBinary2"]
     theorems = ["NV.C07.visibility_table", "NV.C07.visibility_any_flags", "NV.C07.visibility_lifted",
                 "NV.C07.driver_origins_never_refused", "NV.C07.bsearch_correct", "NV.C07.find_function_correct",
                 "NV.C07.find_offsets_are_path_sums", "NV.C07.cache_transparent_step", "NV.C07.cache_transparent",
@@ -391,7 +428,8 @@ class C07(Prop):
                 "NV.C07.slotOf_formula", "NV.C07.cacheMask_is_size_minus_one", "NV.C07.slotOf_lt", "NV.C07.find_masks_are_source",
                 "NV.C07.name_masks_are_source", "NV.C07.cmp_marker_is_byte_max",
                 "NV.C07.permute_slot_entry", "NV.C07.permute_ft_mem", "NV.C07.permute_keeps_rest", "NV.C07.sortIdx_isPerm",
-                "NV.C07.resort_slot_entry", "NV.C07.inversePerm_getElem"]
+                "NV.C07.resort_slot_entry", "NV.C07.inversePerm_getElem", "NV.C07.built_fio_sorted",
+                "NV.C07.cmp_literals_are_source", "NV.C07.resort_sorted", "NV.C07.sortIdx_pairwise"]
     witness_theorems = ["NV.C07.Witness.old_cache_not_transparent", "NV.C07.Witness.origin_stored_once_runs_static",
                         "NV.C07.Witness.old_compress_overflow_branch_loses_entries",
                         "NV.C07.Witness.temp_instead_of_inverse_misdispatches"]
@@ -434,12 +472,16 @@ class C07(Prop):
                   "modelled (tables have < 65536 slots)")
     rule = ("cases = corpus + boundary list + seeded random inheritance graphs (2-7 programs, depth <= 4, up to 3 inherits per "
             "program with private/static/public/protected modifiers, overriding, prototypes before and after inherits, "
-            "`::f` / `A::f` / local / function-pointer calls in bodies) x 12-45 calls by name from call_other (shared and "
-            "copied name string), driver apply, call_out-origin apply and real call_out, with refused and non-existent names, "
-            "call_other on ARRAY targets (objects, file names, non-objects; the function at every position) and on FILE NAME "
-            "targets (loaded / loaded by the call, running create() in between / no such file), heart_beat ticks, "
-            "cache clears and forced slot collisions; every case is run on the real driver, by the model on the dumped real "
-            "tables and by the specification on the abstract graph; a case is non-trivial when at least one call ran a body")
+            "`::f` / `A::f` / local calls, function pointers and functionals evaluated in place or by ANOTHER object in bodies) x "
+            "12-45 calls by name from call_other (shared and copied name string), driver apply, call_out-origin apply and real "
+            "call_out, with refused and non-existent names, call_other on ARRAY targets (objects, file names, non-objects; the "
+            "function at every position) and on FILE NAME targets (loaded / loaded by the call, running create() in between / no "
+            "such file), heart_beat ticks, cache clears and forced slot collisions; one case in five saves its programs with "
+            "#pragma save_binary and RELOADS everything from the binaries in the middle of the history with the function-name strings "
+            "re-created in a random address order; boundary: wide programs around the 255-entry limit of the compressed table, "
+            "binary reloads under rotations / a reversal / a 3-cycle / twice; every case is run on the real driver, by the model "
+            "(tables BUILT and COMPRESSED by the model must equal the dumped real ones, before and after a reload) and by the "
+            "specification on the abstract graph; a case is non-trivial when at least one call ran a body")
     not_covered = ["the construction of the function tables (copy_functions, overload_function, define_new_function, epilog, "
                    "copy_and_sort_function_table, operands of local / :: / function-pointer calls) IS modelled (NV/C07/Build.lean) and "
                    "the model-built table must equal the real dumped table of every generated program, but `built_table_wf` and the "
@@ -451,8 +493,8 @@ class C07(Prop):
                    "model builds satisfies cmpWF is evaluated per program (`!cmpwf` marker in the compared cmp line), not proved; "
                    "copy_and_sort_function_table's renumbering INSIDE the compressed layout and the readers in binaries.c / debug.c "
                    "are covered only through the dumped result",
-                   "simul_efun dispatch, efun function pointers and function pointers evaluated by another object "
-                   "(ORIGIN_FUNCTIONAL, bind()) are not exercised; the heart_beat origin is (call hb)",
+                   "simul_efun dispatch, efun / simul_efun function pointers, bind() and pointer arguments are not exercised; local "
+                   "function pointers and functionals evaluated by another object, and the heart_beat origin, are",
                    "varargs / argument count normalisation (setup_variables) is outside the model",
                    "program deallocation and reuse of a program_t address while a cache entry still names it (the id test of the "
                    "hit path): cannot be exercised under ASan, whose quarantine never hands the address out again",
@@ -464,7 +506,8 @@ class C07(Prop):
                    "a reload in another driver process, out-of-date / damaged binaries (C17)"]
 
     def gen_extra(self, ctx, bdir):
-        return gen_function_visible(bdir) + "\n" + gen_apply_hash(bdir) + "\n" + gen_find_masks(bdir)
+        return (gen_function_visible(bdir) + "\n" + gen_apply_hash(bdir) + "\n" + gen_find_masks(bdir) + "\n"
+                + gen_compress_consts(bdir))
 
     # ---- implementation side ---------------------------------------------------------------
     def prepare(self, ctx):
